@@ -3,6 +3,7 @@ package main
 // Iterator rules for C13: I2 cursor advance, I3 range validation.
 
 import (
+	"fmt"
 	"go/token"
 	"strings"
 
@@ -239,17 +240,54 @@ func ruleI3(p *Prog, r *Report) {
 			c, ok := canonConv(v).(*ssa.Call)
 			return ok && calleeName(c) == "Count"
 		}
-		orderOK := has("NewInvalidSliceIndexError", func(bo *ssa.BinOp) bool {
-			return (bo.Op == token.GTR && isP(bo.X, start) && isP(bo.Y, end)) || (bo.Op == token.LSS && isP(bo.X, end) && isP(bo.Y, start))
-		})
-		startOK := has("NewSliceOutOfBoundsError", func(bo *ssa.BinOp) bool {
-			return (bo.Op == token.GTR && isP(bo.X, start) && isCount(bo.Y)) || (bo.Op == token.LSS && isCount(bo.X) && isP(bo.Y, start))
-		})
-		endOK := has("NewSliceOutOfBoundsError", func(bo *ssa.BinOp) bool {
-			return (bo.Op == token.GTR && isP(bo.X, end) && isCount(bo.Y)) || (bo.Op == token.LSS && isCount(bo.X) && isP(bo.Y, end))
-		})
-		r.Decide(orderOK, R, "range-order-rejected:"+name, p.Pos(top.Pos()), "start > end is rejected with InvalidSliceIndexError", "a range with start > end is no longer rejected")
-		r.Decide(startOK && endOK, R, "range-bounds-rejected:"+name, p.Pos(top.Pos()), "start > count and end > count are rejected with SliceOutOfBoundsError", "a range reaching beyond the element count is no longer rejected")
+		// the two kinds of rejection exist and depend on comparisons of the right quantities (whatever their
+		// operator shape: the exactness of the guards is decided by the case analysis below)
+		involves := func(bo *ssa.BinOp, a, b func(ssa.Value) bool) bool {
+			return (a(bo.X) && b(bo.Y)) || (a(bo.Y) && b(bo.X))
+		}
+		isStart := func(v ssa.Value) bool { return isP(v, start) }
+		isEnd := func(v ssa.Value) bool { return isP(v, end) }
+		orderOK := has("NewInvalidSliceIndexError", func(bo *ssa.BinOp) bool { return involves(bo, isStart, isEnd) })
+		startOK := has("NewSliceOutOfBoundsError", func(bo *ssa.BinOp) bool { return involves(bo, isStart, isCount) })
+		endOK := has("NewSliceOutOfBoundsError", func(bo *ssa.BinOp) bool { return involves(bo, isEnd, isCount) })
+		r.Decide(orderOK, R, "range-order-rejected:"+name, p.Pos(top.Pos()), "a comparison of start and end controls an InvalidSliceIndexError", "no InvalidSliceIndexError depends on a comparison of start and end any more")
+		r.Decide(startOK && endOK, R, "range-bounds-rejected:"+name, p.Pos(top.Pos()), "comparisons of start and of end with the count control a SliceOutOfBoundsError", "no SliceOutOfBoundsError depends on comparisons of both start and end with the element count any more")
+		// exactness by case analysis over every ordering of (start, end, count): values 0..2 realise all of them;
+		// branches that compare two of the three quantities are decided, every other branch is followed both ways.
+		// A success return must be unreachable when the range is invalid and reachable when it is valid.
+		{
+			n++
+			bad := ""
+			for sv := 0; sv < 3 && bad == ""; sv++ {
+				for ev := 0; ev < 3 && bad == ""; ev++ {
+					for cv := 0; cv < 3 && bad == ""; cv++ {
+						val := func(v ssa.Value) (int, bool) {
+							v = canonConv(v)
+							switch {
+							case v == ssa.Value(start):
+								return sv, true
+							case v == ssa.Value(end):
+								return ev, true
+							case isCount(v):
+								return cv, true
+							}
+							return 0, false
+						}
+						succ, _ := orderReach(top, val)
+						valid := sv <= ev && ev <= cv
+						if valid && !succ {
+							bad = fmt.Sprintf("the valid range start=%d end=%d count=%d is rejected", sv, ev, cv)
+						}
+						if !valid && succ {
+							bad = fmt.Sprintf("the invalid range start=%d end=%d count=%d reaches a success return", sv, ev, cv)
+						}
+					}
+				}
+			}
+			r.Decide(bad == "", R, "range-validation-exact:"+name, p.Pos(top.Pos()),
+				"under every ordering of start, end and count the constructor succeeds exactly for start <= end <= count",
+				"the range validation is not exact: "+bad+" (decided over all orderings of the three quantities)")
+		}
 		// the rejections precede the construction of the iterator
 		var firstAlloc ssa.Instruction
 		eachInstr(top, func(in ssa.Instruction) {
@@ -309,4 +347,66 @@ func ruleI4(p *Prog, r *Report) {
 		}
 	}
 	r.Floor(R, "element-list removals", 3, n)
+}
+
+// orderReach walks f's CFG deciding every branch whose condition compares two values known to `val`
+// (other branches are followed both ways) and reports whether a success return / an error return is reachable.
+func orderReach(f *ssa.Function, val func(ssa.Value) (int, bool)) (success, failure bool) {
+	seen := map[*ssa.BasicBlock]bool{}
+	var walk func(b *ssa.BasicBlock)
+	walk = func(b *ssa.BasicBlock) {
+		if seen[b] {
+			return
+		}
+		seen[b] = true
+		last := b.Instrs[len(b.Instrs)-1]
+		switch x := last.(type) {
+		case *ssa.Return:
+			if cl, _ := classifyReturn(x); cl == retError {
+				failure = true
+			} else {
+				success = true
+			}
+			return
+		case *ssa.If:
+			if bo, ok := x.Cond.(*ssa.BinOp); ok {
+				a, ok1 := val(bo.X)
+				c, ok2 := val(bo.Y)
+				if ok1 && ok2 {
+					var t bool
+					switch bo.Op {
+					case token.LSS:
+						t = a < c
+					case token.LEQ:
+						t = a <= c
+					case token.GTR:
+						t = a > c
+					case token.GEQ:
+						t = a >= c
+					case token.EQL:
+						t = a == c
+					case token.NEQ:
+						t = a != c
+					default:
+						walk(b.Succs[0])
+						walk(b.Succs[1])
+						return
+					}
+					if t {
+						walk(b.Succs[0])
+					} else {
+						walk(b.Succs[1])
+					}
+					return
+				}
+			}
+		}
+		for _, sc := range b.Succs {
+			walk(sc)
+		}
+	}
+	if len(f.Blocks) > 0 {
+		walk(f.Blocks[0])
+	}
+	return
 }
